@@ -104,7 +104,10 @@ Judge(ev) ==
                          /\ ((ev.sf.given /\ ev.sf.num) => (QPos(Q(ev.sf.q)) /\ ev.sf.divides1))
                          /\ ((ev.sf.given /\ ev.minor.given /\ ev.sf.num) => ev.sf.digits = ev.minor.v)
                          /\ ev.symok
-            IN  IF valid
+                \* a smallest fraction without a finite decimal expansion (1/3, 1/240): the documentation does not say
+                \* whether that is a valid parameter - it may be accepted or rejected, but a rejection leaves no trace
+                accepted == IF ev.sf.given /\ ev.sf.num /\ ~ev.sf.terminates THEN ev.obs.st = "ok" ELSE valid
+            IN  IF valid /\ accepted
                 THEN J(ev.obs.st = "ok" /\ ev.obs.registered /\ ev.obs.owner = "Money"
                        /\ QEq(Q(ev.obs.q), IF ev.sf.given THEN Q(ev.sf.q)
                                            ELSE [s |-> 1, n |-> BOne, d |-> BPow10(IF ev.minor.given THEN ev.minor.v ELSE 2)]))
